@@ -207,6 +207,11 @@ def run(ctx):
                 term.membership(np.sort(arr))
                 term.membership(np.float64(xs[0]))
                 term.membership(arr[:, None])
+                term.membership([float(v) for v in xs[:7]])  # a plain list
+                term.membership(int(round(lo)))  # a Python int
+                term.membership(arr[:6].astype(np.float32))
+                term.membership(arr[:1])  # a batch of one
+                ctx.hit("forms:list,int,float32,batch-of-one")
             if i < len(kinds) and i % 5 == 0:
                 ctx.sample("term", {"spec": spec, "x": xs[:8], "membership": term.membership(np.array(xs[:8]))})
         # the same term and the same array object used again after the array was refilled / a parameter was changed (stale state)
